@@ -414,6 +414,9 @@ Proof.
   - (* EInt *)
     cbn [expression] in Hlow. mon Hlow. fresh_all. inj_code.
     eexists _, _. split; [|lia]. eapply (cshape_iis u l _ c); [lia | reflexivity | reflexivity].
+  - (* EStr *)
+    cbn [expression] in Hlow. mon Hlow. fresh_all. inj_code.
+    eexists _, _. split; [|lia]. eapply (cshape_iis u l _ c); [lia | reflexivity | reflexivity].
   - (* EBool *)
     cbn [expression] in Hlow. mon Hlow. fresh_all. inj_code.
     eexists _, _. split; [|lia]. eapply (cshape_iis u l _ c); [lia | reflexivity | reflexivity].
